@@ -68,6 +68,9 @@ def run_schedules(ctx, params):
         ctx.count("schedules_run")
         if r.timed_out:
             ctx.count("schedules_timed_out")
+            if ctx.counters["schedules_timed_out"] > 3:
+                # a thread is parked somewhere the scheduler cannot see: no verdict, and no point in waiting out every schedule
+                raise RuntimeError("scheduler: more than 3 schedules ran into the wall-clock watchdog (inconclusive)")
             return
         tl = r.trace_lines()
         if tl not in seen_traces:
